@@ -4,6 +4,8 @@ CONSTANTS
   InitBound = {0, 1}
   OpSet <- OpsSmall
   FixAttach = FALSE
+  Literal = FALSE
+  FixDel = FALSE
 SPECIFICATION Spec
 INVARIANTS MutualExclusion NoDeadlock NoLockLeft ReturnedHoldNothing Linearizable
 PROPERTIES EveryOpReturns
